@@ -16,7 +16,7 @@ import (
 	"github.com/flamego/flamego/verifharness/internal/rt"
 )
 
-const rule = "case = a valid route set (1..8 routes over a shared segment pool, random order, 1..2 methods) plus 1..12 requests, 80% built from an instance of a registered route and mutated; " +
+const rule = "case = a valid route set (1..8 routes over a shared segment pool, random order, 1..2 methods) plus 1..12 requests, 80% built from an instance of a registered route and mutated, one in four also carrying an over-escaped URL.RawPath that decodes to the same path; " +
 	"each request is matched by route.Tree.Match and served through Flame.ServeHTTP and compared with the reference matcher (flat route list, documented priority) and with a priority-free brute force for the iff. " +
 	"non-trivial = a case with a request admitted by >=2 route forms, or decided after the reference matcher abandoned an admitting alternative, or with a mid-route match-all spanning >=2 segments, or won by the short form of an optional route; distinct by case text. " +
 	"metamorphic part (no reference matcher): adding an unrelated route, swapping adjacent registrations of different rank, registering routes for another method and extra leading slashes change no outcome. small-scope part: every ordered set of <=3 compatible routes from a fixed pool of 12 x every path of <=4 segments over 5 values"
@@ -94,6 +94,9 @@ func checkCase(c Case) evid.Outcome {
 		}
 		if strings.HasPrefix(q.P, "//") {
 			out.Classes = append(out.Classes, "leading-slashes")
+		}
+		if q.Wire != "" {
+			out.Classes = append(out.Classes, "over-escaped-on-the-wire")
 		}
 
 		// tree level
